@@ -628,6 +628,28 @@ class Interp:
                 if et is None or issubclass(et, (PyRaise, ReturnSig, BreakSig, ContinueSig)):
                     self.exec_block(st.finalbody, env)
 
+    def st_With(self, st, env):
+        """with <expr> [as name]: <body>  for context managers the models provide (file objects): enter, run the body,
+        leave - on every exit of the body, normal or exceptional"""
+        if len(st.items) != 1:
+            raise Unsupported('with statement with several items')
+        mgr = self.eval(st.items[0].context_expr, env)
+        enter, leave = getattr(mgr, 'with_enter', None), getattr(mgr, 'with_exit', None)
+        if enter is None or leave is None:
+            raise Unsupported('with statement over %r at line %d' % (mgr, st.lineno))
+        v = enter(self)
+        if st.items[0].optional_vars is not None:
+            self.assign(st.items[0].optional_vars, v, env)
+        try:
+            self.exec_block(st.body, env)
+        except (PyRaise, ReturnSig, BreakSig, ContinueSig):
+            try:
+                leave(self)
+            except PyRaise:
+                pass            # an error while closing during unwinding: the original exception propagates
+            raise
+        leave(self)
+
     def handler_matches(self, h, exc, env):
         if h.type is None:
             return True
